@@ -24,6 +24,48 @@ func ruleGR8(c *Ctx) *rule {
 		l := fi.innermostLoop(site.Block())
 		key := fmt.Sprintf("%s AddEdge#%d loop", fname(f), i+1)
 		if l == nil {
+			// a helper handling one dependency: the loop is at its single call site, and inside the helper every path that
+			// returns without error passes AddEdge
+			sites := c.callersOf(f)
+			if len(sites) == 1 && c.info(sites[0].Parent()).innermostLoop(sites[0].Block()) != nil {
+				missing := ""
+				seenB := map[string]bool{}
+				var walk func(b *ssa.BasicBlock, done bool, ps *pathState)
+				walk = func(b *ssa.BasicBlock, done bool, ps *pathState) {
+					k := fmt.Sprintf("%d|%v|%s", b.Index, done, ps.key())
+					if missing != "" || seenB[k] {
+						return
+					}
+					seenB[k] = true
+					for _, in := range b.Instrs {
+						if in == ssa.Instruction(site) {
+							done = true
+						}
+						if ret, ok := in.(*ssa.Return); ok {
+							if ev := returnedErr(ret); (ev == nil || ps.mayBeNil(ev)) && !done {
+								missing = "the helper can return without error at " + c.ipos(ret) + " without having called AddEdge"
+							}
+							return
+						}
+					}
+					for j, nx := range b.Succs {
+						if _, _, next, ok := ps.branch(b, j); ok {
+							walk(nx, done, next.enter(nx, b))
+						}
+					}
+				}
+				walk(f.Blocks[0], false, newPathStateFor(f))
+				if missing != "" {
+					r.bad(key, c.ipos(site), missing)
+					continue
+				}
+				site = sites[0]
+				f = site.Parent()
+				fi = c.info(f)
+				l = fi.innermostLoop(site.Block())
+			}
+		}
+		if l == nil {
 			r.bad(key, c.ipos(site), "AddEdge is not called in a loop over the task's dependencies")
 			continue
 		}
@@ -305,6 +347,75 @@ func (c *Ctx) builtinFuncs() map[string]*ssa.Function {
 			}
 		}
 	}
+	if len(out) > 0 {
+		return out
+	}
+	// no table: builtins.Get selects the function with comparisons of its name parameter against constants
+	get := c.fnOpt("builtins", "Get")
+	if get == nil || len(get.Params) != 1 {
+		return out
+	}
+	fi := c.info(get)
+	for _, ret := range returnsOf(get) {
+		var fn *ssa.Function
+		for _, o := range origins(ret.Results[0]) {
+			switch x := o.(type) {
+			case *ssa.Function:
+				fn = x
+			case *ssa.ChangeType:
+				if f2, ok := x.X.(*ssa.Function); ok {
+					fn = f2
+				}
+			}
+		}
+		if fn == nil {
+			continue
+		}
+		for _, g := range fi.necessaryGuards(ret.Block()) {
+			bo, ok := g.cond.(*ssa.BinOp)
+			if !ok || !((bo.Op == token.EQL && g.pol) || (bo.Op == token.NEQ && !g.pol)) {
+				continue
+			}
+			for _, pair := range [][2]ssa.Value{{bo.X, bo.Y}, {bo.Y, bo.X}} {
+				if k, isC := constString(pair[1]); isC && pair[0] == ssa.Value(get.Params[0]) {
+					out[k] = fn
+				}
+			}
+		}
+	}
+	// a phi of function values selected by the same comparisons
+	if len(out) == 0 {
+		for _, ret := range returnsOf(get) {
+			if phi, ok := ret.Results[0].(*ssa.Phi); ok {
+				for i, e := range phi.Edges {
+					var fn *ssa.Function
+					for _, o := range origins(e) {
+						if f2, ok := o.(*ssa.Function); ok {
+							fn = f2
+						}
+						if ct, ok := o.(*ssa.ChangeType); ok {
+							if f2, ok := ct.X.(*ssa.Function); ok {
+								fn = f2
+							}
+						}
+					}
+					if fn == nil {
+						continue
+					}
+					pred := phi.Block().Preds[i]
+					for _, g := range fi.guardsOfEdge(edge{pred, succIndex(pred, phi.Block())}) {
+						if bo, ok := g.cond.(*ssa.BinOp); ok && ((bo.Op == token.EQL && g.pol) || (bo.Op == token.NEQ && !g.pol)) {
+							for _, pair := range [][2]ssa.Value{{bo.X, bo.Y}, {bo.Y, bo.X}} {
+								if k, isC := constString(pair[1]); isC && pair[0] == ssa.Value(get.Params[0]) {
+									out[k] = fn
+								}
+							}
+						}
+					}
+				}
+			}
+		}
+	}
 	return out
 }
 
@@ -323,12 +434,11 @@ func ruleEN5(c *Ctx) *rule {
 	{
 		key := fname(ex) + " value"
 		bad, okV := "", false
-		for _, ret := range returnsOf(ex) {
-			ev := returnedErr(ret)
-			if ev == nil || !isNilConst(ev) {
-				continue
-			}
-			for _, o := range origins(ret.Results[0]) {
+		for _, sv := range successValues(ex) {
+			for _, o := range origins(sv) {
+				if s, isC := constString(o); isC && s == "" {
+					continue // the error path of an inlined helper
+				}
 				call, ok := o.(*ssa.Call)
 				if !ok {
 					bad = "the value returned is not the result of a trimming call"
@@ -400,12 +510,8 @@ func ruleEN5(c *Ctx) *rule {
 	{
 		key := fname(jo) + " value"
 		okV := false
-		for _, ret := range returnsOf(jo) {
-			ev := returnedErr(ret)
-			if ev == nil || !isNilConst(ev) {
-				continue
-			}
-			for _, o := range origins(ret.Results[0]) {
+		for _, sv := range successValues(jo) {
+			for _, o := range origins(sv) {
 				if e2, ok := o.(*ssa.Extract); ok && e2.Index == 0 {
 					if call, ok := e2.Tuple.(*ssa.Call); ok && calleeName(call.Common()) == "path/filepath.Abs" {
 						for _, oo := range origins(call.Common().Args[0]) {
@@ -930,7 +1036,7 @@ func ruleHS5(c *Ctx) *rule {
 		// the indexed slice is the list parameter itself (possibly through the closure cell), not a re-slice
 		isList := false
 		sl := c.newSlicer()
-		sl.depth = 0
+		sl.depth = 1
 		res := sl.run(ia.X)
 		for _, p := range res.params {
 			if p == listParam {
@@ -1091,4 +1197,31 @@ func ruleST8(c *Ctx) *rule {
 		}
 	}
 	return r
+}
+
+// successValues lists what f returns as its first result together with a nil error: the operand of a Return whose error is
+// the constant nil, or — when an inlined helper's results are merged by phis — the value operands paired with nil errors.
+func successValues(f *ssa.Function) []ssa.Value {
+	var out []ssa.Value
+	for _, ret := range returnsOf(f) {
+		ev := returnedErr(ret)
+		if ev == nil || len(ret.Results) == 0 {
+			continue
+		}
+		v := ret.Results[0]
+		if isNilConst(ev) {
+			out = append(out, v)
+			continue
+		}
+		ep, ok1 := ev.(*ssa.Phi)
+		vp, ok2 := v.(*ssa.Phi)
+		if ok1 && ok2 && ep.Block() == vp.Block() {
+			for i := range ep.Edges {
+				if isNilConst(ep.Edges[i]) {
+					out = append(out, vp.Edges[i])
+				}
+			}
+		}
+	}
+	return out
 }
